@@ -9,6 +9,9 @@ package main
 
 import (
 	"fmt"
+	"go/parser"
+	"os"
+	"path/filepath"
 	"regexp"
 	"go/ast"
 	"go/token"
@@ -29,6 +32,7 @@ type gm struct {
 	pkgs        map[string]bool   // imported package names
 	unsupported []string
 	cur         string
+	ext         map[string]string   // pkg.Name -> integer value of constants of imported modules (module cache)
 	scopes      []map[string]string // source name -> name in the embedding (a shadowing declaration is renamed)
 	nshadow     int
 }
@@ -171,6 +175,9 @@ func (g *gm) expr(e ast.Expr) string {
 		return "(.var " + strconv.Quote(g.resolve(x.Name)) + ")"
 	case *ast.SelectorExpr:
 		if id, ok := x.X.(*ast.Ident); ok && g.pkgs[id.Name] {
+			if v, ok := g.ext[id.Name+"."+x.Sel.Name]; ok {
+				return "(.int " + v + ")"
+			}
 			return "(.var " + strconv.Quote(id.Name+"."+x.Sel.Name) + ")"
 		}
 		return "(.sel " + g.expr(x.X) + " " + strconv.Quote(x.Sel.Name) + ")"
@@ -554,6 +561,13 @@ func collectConsts(fs []*file) map[string]string {
 								out[n.Name] = strconv.FormatInt(v, 10)
 							}
 						}
+						if ue, ok := vs.Values[i].(*ast.UnaryExpr); ok && ue.Op == token.SUB {
+							if bl, ok := ue.X.(*ast.BasicLit); ok && bl.Kind == token.INT {
+								if v, err := strconv.ParseInt(bl.Value, 0, 64); err == nil {
+									out[n.Name] = "(" + strconv.FormatInt(-v, 10) + ")"
+								}
+							}
+						}
 					}
 				}
 			}
@@ -609,7 +623,7 @@ func genGoMini(module string, order []string, units map[string][]string, constFi
 				names = append(names, "("+strconv.Quote(short)+", "+def+")")
 				continue
 			}
-			g := &gm{f: f, consts: consts, pkgs: importedPkgs(f), cur: fnName}
+			g := &gm{f: f, consts: consts, pkgs: importedPkgs(f), cur: fnName, ext: externalConsts(f)}
 			g.push()
 			recv := "none"
 			if fd.Recv != nil && len(fd.Recv.List) > 0 && len(fd.Recv.List[0].Names) > 0 {
@@ -685,5 +699,97 @@ func genGoMiniAll() []*leanFile {
 			sv + "failover.go":  {"failoverStatus.report", "failoverStatus.cancel", "partitionFailover.Quorum", "partitionFailover.IsWitness", "partitionFailover.Timeout"},
 			sv + "partition.go": {"partition.inISR", "partition.ISRSize", "partition.GetLeader"}},
 		[]string{sv + "failover.go", sv + "partition.go"})})
+	out = append(out, &leanFile{name: "GoSubscribe", raw: genGoMini("GoSubscribe",
+		[]string{sv + "partition.go"},
+		map[string][]string{sv + "partition.go": {"partition.getStopOffset"}},
+		[]string{sv + "partition.go", sv + "api.go"})})
+	return out
+}
+
+// externalConsts: integer constants (`Name T = <int>`) of the packages a file imports from OTHER modules,
+// read from the module cache at the version go.mod pins (protobuf enums such as client.StopPosition_*).
+var extConstCache = map[string]map[string]string{}
+
+func externalConsts(f *file) map[string]string {
+	out := map[string]string{}
+	gomod, err := os.ReadFile(filepath.Join(repo, "go.mod"))
+	if err != nil {
+		return out
+	}
+	cache := os.Getenv("GOMODCACHE")
+	if cache == "" {
+		home, _ := os.UserHomeDir()
+		gp := os.Getenv("GOPATH")
+		if gp == "" {
+			gp = filepath.Join(home, "go")
+		}
+		cache = filepath.Join(gp, "pkg", "mod")
+	}
+	req := regexp.MustCompile(`(?m)^\s*(\S+)\s+(v\S+)`)
+	mods := map[string]string{}
+	for _, m := range req.FindAllStringSubmatch(string(gomod), -1) {
+		mods[m[1]] = m[2]
+	}
+	for _, im := range f.f.Imports {
+		ip, _ := strconv.Unquote(im.Path.Value)
+		if !strings.Contains(ip, "liftbridge-api") { // only the API module's enums are needed so far
+			continue
+		}
+		alias := ""
+		if im.Name != nil {
+			alias = im.Name.Name
+		} else {
+			alias = ip[strings.LastIndex(ip, "/")+1:]
+		}
+		var dir string
+		for mod, ver := range mods {
+			if strings.HasPrefix(ip, mod) {
+				dir = filepath.Join(cache, mod+"@"+ver, strings.TrimPrefix(ip, mod))
+			}
+		}
+		if dir == "" {
+			continue
+		}
+		if c, ok := extConstCache[dir]; ok {
+			for k, v := range c {
+				out[alias+"."+k] = v
+			}
+			continue
+		}
+		c := map[string]string{}
+		ents, _ := os.ReadDir(dir)
+		for _, e := range ents {
+			if !strings.HasSuffix(e.Name(), ".go") || strings.HasSuffix(e.Name(), "_test.go") {
+				continue
+			}
+			fset := token.NewFileSet()
+			af, err := parser.ParseFile(fset, filepath.Join(dir, e.Name()), nil, 0)
+			if err != nil {
+				continue
+			}
+			for _, d := range af.Decls {
+				gd, ok := d.(*ast.GenDecl)
+				if !ok || gd.Tok != token.CONST {
+					continue
+				}
+				for _, sp := range gd.Specs {
+					vs := sp.(*ast.ValueSpec)
+					for i, n := range vs.Names {
+						if i < len(vs.Values) {
+							if bl, ok := vs.Values[i].(*ast.BasicLit); ok && bl.Kind == token.INT {
+								if v, err := strconv.ParseInt(bl.Value, 0, 64); err == nil {
+									c[n.Name] = strconv.FormatInt(v, 10)
+								}
+							}
+						}
+					}
+				}
+			}
+		}
+		extConstCache[dir] = c
+		for k, v := range c {
+			out[alias+"."+k] = v
+		}
+	}
 	return out
 }
